@@ -393,20 +393,42 @@ func usedOfObj(o *Obj, add func(string)) {
 	}
 }
 
+// transitiveBases collects the names a schema may additionally list in
+// usedUserTypes (known finding F16): every allOf base named anywhere inside
+// the object tree of one of its bases, transitively.
 func (rc *refCat) transitiveBases(o *Obj, out map[string]bool) {
-	for _, b := range o.AllOf {
-		if bt := rc.types[b]; bt != nil && bt.Schema != nil && bt.Schema.Obj != nil {
-			for _, bb := range bt.Schema.Obj.AllOf {
-				out[bb] = true
+	var allBasesInside func(o *Obj, seen map[string]bool)
+	allBasesInside = func(o *Obj, seen map[string]bool) {
+		for _, b := range o.AllOf {
+			out[b] = true
+			if !seen[b] {
+				seen[b] = true
+				if bt := rc.types[b]; bt != nil && bt.Schema != nil && bt.Schema.Obj != nil {
+					allBasesInside(bt.Schema.Obj, seen)
+				}
 			}
-			rc.transitiveBases(bt.Schema.Obj, out)
+		}
+		for _, p := range o.Props {
+			if p.V.Kind == "obj" {
+				allBasesInside(p.V.Obj, seen)
+			}
 		}
 	}
-	for _, p := range o.Props {
-		if p.V.Kind == "obj" {
-			rc.transitiveBases(p.V.Obj, out)
+	seen := map[string]bool{}
+	var walk func(o *Obj)
+	walk = func(o *Obj) {
+		for _, b := range o.AllOf {
+			if bt := rc.types[b]; bt != nil && bt.Schema != nil && bt.Schema.Obj != nil {
+				allBasesInside(bt.Schema.Obj, seen)
+			}
+		}
+		for _, p := range o.Props {
+			if p.V.Kind == "obj" {
+				walk(p.V.Obj)
+			}
 		}
 	}
+	walk(o)
 }
 
 // schema builds the expectation for a schema.
